@@ -1,5 +1,10 @@
 use std::fs::File;
+#[cfg(not(kani))]
 use std::io::{BufRead, BufReader};
+#[cfg(kani)]
+use std::io::BufRead;
+#[cfg(kani)]
+use crate::verif_kani::shim::io::BufReader;
 
 pub struct TablePrinter {
     column_names: Vec<String>,
